@@ -7,6 +7,7 @@ from .common import where, check_arm_purity
 from . import constructions as K
 from . import guardrules as R
 from . import flow as F
+from . import spec as SP
 from .c02 import check_pipeline
 
 EXPLANATION = (
@@ -40,15 +41,16 @@ def run(ctx):
         adds0 = [s for s in ev.sites.values() if s.callee[0] == "Add::add" and any(x.op == "index" and B._const_int(x.a[1]) == 0 for x in subterms(s.args[1]))]
         okc = cov == ["all"] or (cov == ["tail1"] and len(adds0) >= 1)
         ctx.ob("E4.accumulate", fk + "/covers-all", okc, "loop iterates %s and sigs[0] is added %d time(s) on the exits" % (cov, len(adds0)), where=where(f))
-        n, _ = check_arm_purity(ctx, "E2-A", P, [f])
-        ctx.floor("E2-A", "result-variant switch in try_from", n, 1)
+        check_arm_purity(ctx, "E2-A", P, [f])
+        SP.check_variant_preserved(ctx, "E2.variant", P, f, "AggregateSignature")
         allow_skip = {(fk, "skip"): "skip(1): element 0 is added separately on the exits"} if (cov == ["tail1"] and len(adds0) >= 1) else {}
         F.check_no_dropping_adapters(ctx, "E7.adapters", P, [fk], allow=allow_skip)
     # verify wrapper
     v = ctx.need_fn("E2-A", "AggregateSignature<C>::verify")
     if v is not None:
-        n, _ = check_arm_purity(ctx, "E2-A", P, [v])
-        ctx.floor("E2-A", "dispatch in AggregateSignature::verify", n, 1)
+        check_arm_purity(ctx, "E2-A", P, [v])
+        n = SP.check_trait_by_scheme(ctx, "E2.dispatch", P, v, ("aggregate_verify",))
+        ctx.floor("E2.dispatch", "schemes of AggregateSignature::verify reaching their aggregate_verify", n, 3)
         F.check_no_dropping_adapters(ctx, "E7.adapters", P, ["AggregateSignature<C>::verify"])
         ev = evaluate(v)
         for bb, s in sorted(ev.sites.items()):
@@ -127,6 +129,23 @@ def check_basic_uniqueness(ctx, P):
         # the key is the message alone (not the public key, not the index)
         msg_only = len(key_nf) == 1 and key_nf[0][0] == "v"
         ctx.ob("E4.unique", fk + "/key", msg_only, "set key is exactly the entry's message bytes: %s" % B.show_nf(key_nf), where=where(f, b), weak=not msg_only and B.is_strong(key_nf) is False)
+    elif any(s.callee[0].endswith("::entry") and s.callee[0].split("::")[0] in ("HashMap", "BTreeMap") for _, s in ev.sites.items()):
+        # Entry API: match map.entry(key) { Occupied(_) => return Err(..), Vacant(v) => { v.insert(..); } }
+        b, s = next((b, s) for b, s in sorted(ev.sites.items()) if s.callee[0].endswith("::entry") and s.callee[0].split("::")[0] in ("HashMap", "BTreeMap"))
+        key = strip_sites(s.args[1])
+        key_nf = B.nf(ev, s.args[1])
+        from_elem = any(x.op == "call" and B.cname(x) == "Iterator::next" for x in subterms(key))
+        every = any(cfg.dominates(b, src) for src, h in cfg.back_edges())
+        def entry_switch(blk):
+            return {(a[2], a[3]) for a, pol in G.path_literals(ev, blk, P) if pol and a[1] == "switch" and any(x.op == "call" and B.cname(x) == s.callee[0] for x in subterms(a[2]))}
+        vac = [vb for vb, vs in sorted(ev.sites.items()) if vs.callee[0].startswith("VacantEntry") and vs.callee[0].endswith("::insert") and any(x.op == "call" and B.cname(x) == s.callee[0] for x in subterms(strip_sites(vs.args[0])))]
+        recorded = bool(vac) and all(any(cfg.dominates(vb, src) for vb in vac) for src, h in cfg.back_edges() if cfg.dominates(b, src))
+        vsw = set().union(*[entry_switch(vb) for vb in vac]) if vac else set()
+        controls = any(esw and not (esw & vsw) for esw in (entry_switch(e) for e in errs))
+        srcs = [R.covers_all(sr, "pks") for _, sr in R.loop_sources(f)]
+        ctx.ob("E4.unique", fk + "/insert", from_elem and every and recorded and controls and srcs == ["all"], "uniqueness by the map Entry API: key from the entry=%s, looked up every iteration=%s, vacant slot filled before the next iteration=%s, the other (occupied) arm leaves through Err=%s, loop covers %s; key = %s" % (from_elem, every, recorded, controls, srcs, B.show_nf(key_nf)), where=where(f, b), sample={"key": B.show_nf(key_nf)})
+        msg_only = len(key_nf) == 1 and key_nf[0][0] == "v"
+        ctx.ob("E4.unique", fk + "/key", msg_only, "map key is exactly the entry's message bytes: %s" % B.show_nf(key_nf), where=where(f, b), weak=not msg_only and B.is_strong(key_nf) is False)
     elif dd:
         b, s = dd[0]
         sorted_first = any(cfg.dominates(sb, b) for sb, _ in sorts)
